@@ -22,20 +22,23 @@ RULE_TEXT = "one obligation per (run-family method, carrier field), per path of 
 
 
 def batch_run(ctx, report, facts, config, rule="C04.FANOUT"):
+    from .. import semq as Q
     prog = ctx.program(facts)
     # BatchControllerSystem::run passes &mut self.dispatcher and the fetched world to the controller
     b = F.timpl(facts, A.T_SYSTEM, A.BCS, "run")
-    bt = prog.bt(b)
-    cs = [(bb, Callee(t["func"])) for bb, t in b.normal_calls()]
-    runs = [(bb, c) for bb, c in cs if c.trait == A.T_BATCHCTRL and c.name == "run"]
-    ok = len(runs) == 1 and len(cs) == 1
-    detail = "%d controller.run call(s), %d call(s) in total" % (len(runs), len(cs))
-    if ok:
-        args = bt.call_args(runs[0][0])
-        b2, p2 = root(args[2], bt, facts.crate)
-        b1, p1 = root(args[1], bt, facts.crate)
-        ok = (b2, p2) == (SELF, ["dispatcher"]) and (b1, p1) == (("param", 2), ["0"])
-        detail = "controller.run(data.0, &mut self.dispatcher)" if ok else "controller.run is not given (data.0, &mut self.dispatcher): %s / %s" % ((b1, p1), (b2, p2))
+    ev, ends = Q.sem(ctx, facts, b)
+    ok, seen = Q.forwards_once(ev, ends, lambda c, x: c.trait == A.T_BATCHCTRL and c.name == "run")
+    detail = "controller.run(data.0, &mut self.dispatcher)"
+    if not ok:
+        detail = "not exactly one controller.run and nothing else on every way: %s" % (seen,)
+    else:
+        for e in Q.returns(ends):
+            x = Q.calls_in(e.path.events, lambda c: c.trait == A.T_BATCHCTRL and c.name == "run")[0]
+            a = [Q.strip(ev, y) for y in x[3]]
+            if not (len(a) == 3 and a[0] == ("field", ("param", 1), "controller", A.BCS) and a[2] == ("field", ("param", 1), "dispatcher", A.BCS)
+                    and a[1][0] == "field" and a[1][1] == ("param", 2) and a[1][2] == "0"):
+                ok = False
+                detail = "controller.run is not given (data.0, &mut self.dispatcher): %s" % (a,)
     report.ob(rule, "RUN/<BatchControllerSystem as System>::run/dispatcher-arg", ok, detail, site=b.loc(), config=config)
     # MultiDispatcher::run: plan once, then exactly n dispatches
     from .. import semq as Q
